@@ -65,6 +65,8 @@ def c10(res: CheckResult) -> None:
     rng = random.Random(res.seed)
     res.assumptions = COMMON_ASSUMPTIONS
     call_unit(res, "re-entrant call graphs over two functions", list(F.fam_reent(res.tier, rng)), ic)
+    call_unit(res, "snapshot captures calling the function they belong to (directly / mutually, plain / coroutine)",
+              list(F.fam_reent_cap(res.tier, rng)), ic)
     call_unit(res, "invariants / preconditions / bodies calling methods of the same and of another instance",
               list(F.fam_reent_inst(res.tier, rng)), ic)
     call_unit(res, "async public methods awaiting public methods of the same / another object",
@@ -112,6 +114,8 @@ def c08(res: CheckResult) -> None:
     random_unit(res, "random programs beyond the exhaustive bounds", list(F.fam_random(res.tier, rng, "snap")), ic)
     call_unit(res, "error factories reading OLD although the condition does not name it",
               [p for p in F.fam_err(res.tier, rng) if p["tag"] == "err-post-noold"], ic)
+    call_unit(res, "overlapping calls of the same callable (recursion) with equally named snapshots whose values "
+                   "depend on the argument", list(F.fam_snap_rec(res.tier, rng)), ic)
     def_unit(res, "snapshot names along hierarchies: duplicates between bases, between base and override; "
                   "snapshots placed before any postcondition", list(DF.fam_snap_names(res.tier, rng)), ic, rng=rng)
     def_unit(res, "decorator stacks: snapshots at every position", list(DF.fam_stacks(res.tier, rng)), ic, rng=rng)
@@ -125,6 +129,7 @@ def c09(res: CheckResult) -> None:
     call_unit(res, "error forms x roles x kinds x sync/async", list(F.fam_err(res.tier, rng)), ic,
               require_outcomes=["Violation", "ErrClass", "ErrInst", "ErrFact", "TypeError"])
     random_unit(res, "random programs beyond the exhaustive bounds", list(F.fam_random(res.tier, rng, "err")), ic)
+    call_unit(res, "error factories whose parameters all carry defaults", list(F.fam_errdefaults(res.tier, rng)), ic)
     call_unit(res, "contract errors deriving from BaseException, the same contract violated three times in a row",
               list(F.fam_errbase(res.tier, rng)), ic)
 
@@ -138,6 +143,8 @@ def c16(res: CheckResult) -> None:
               list(F.fam_order(res.tier, rng)), ic, require_outcomes=["Violation", "ErrInst", "ErrFact"])
     call_unit(res, "sequences of calls with different arguments on callables with several precondition groups",
               list(F.fam_order_seq(res.tier, rng)), ic)
+    call_unit(res, "coroutine functions mixing plain and coroutine-function conditions",
+              list(F.fam_order_mixed_async(res.tier, rng)), ic)
     random_unit(res, "random programs beyond the exhaustive bounds", list(F.fam_random(res.tier, rng, "order")), ic)
     _passive(res)
 
@@ -171,6 +178,8 @@ def c11(res: CheckResult) -> None:
               list(F.fam_fault(res.tier, rng)), ic, require_outcomes=["ret", "Violation", "KI", "Exception"])
     call_unit(res, "cancellation / close at every suspension point of an async call, then a probe",
               list(F.fam_cancel(res.tier, rng)), ic, require_outcomes=["ret", "Cancelled"])
+    call_unit(res, "nested constructor calls (super().__init__) returning inside a running constructor: the suspension "
+                   "state is what it was before the nested call", list(F.fam_inv_sub(res.tier, rng)), ic)
     call_unit(res, "violations found by async and sync public methods, then further operations on the same object",
               list(F.fam_inv_async(res.tier, rng)), ic)
     call_unit(res, "contract errors deriving from BaseException, the same contract violated three times in a row",
@@ -386,6 +395,11 @@ def c06(res: CheckResult) -> None:
 @check("C07")
 def c07(res: CheckResult) -> None:
     _expr_run(res, layouts=True)
+    if not res.violations:
+        ic = C.load_icontract()
+        rng = random.Random(res.seed)
+        call_unit(res, "several precondition groups, a later condition asks for _ARGS: the violation of an earlier "
+                       "group (whose message is built) must not disturb it", list(F.fam_wants_args(res.tier, rng)), ic)
 
 
 @check("C20")
